@@ -55,7 +55,10 @@ FragDefMovie ==
                       durs |-> Some(<<<<2>>, <<3>>>>), sizes |-> <<2, 1>>, cts |-> None, trunV |-> 0 ] >>,
                  << [ track |-> 1, base |-> "moof", tfhdDur |-> Some(<<4>>), tfdt |-> <<20>>, tfdtV |-> 0,
                       durs |-> None, sizes |-> <<3, 3>>, cts |-> None, trunV |-> 0, defSize |-> Some(3) ] >> >> ]
-TheFragMovie == IF Base = "fragdef" THEN FragDefMovie ELSE FragMovie
+\* "fragmf": the same fragmented movie with the media data of every fragment BEFORE its moof
+TheFragMovie == CASE Base = "fragdef" -> FragDefMovie
+                  [] Base = "fragmf" -> [mdatFirst |-> TRUE] @@ FragMovie
+                  [] OTHER -> FragMovie
 
 \* ---- where operations apply -----------------------------------------------------------
 IterTypes == {MOOV, TRAK, MDIA, MINF, STBL, DINF, UDTA, MVEX, MOOF, TRAF, AVC1, MP4A}
@@ -84,7 +87,7 @@ OpsAt(root, p) ==
      \cup (IF "spare" \in OpKinds /\ ~top /\ n.leaf /\ n.t \in SpareTypes /\ n.spare = <<>>
            THEN {[op |-> "spare", path |-> p, len |-> 3]} ELSE {})
 
-IsFrag == Base \in {"frag", "fragdef"}
+IsFrag == Base \in {"frag", "fragdef", "fragmf"}
 BaseTree == IF IsFrag THEN FragTreeZero(TheFragMovie, "one") ELSE PlainTree(PlainMovie, ZeroOffsets(PlainMovie))
 Applicable(os) == Let(ApplyOps(BaseTree, os, 1), LAMBDA root : UNION {OpsAt(root, p) : p \in Paths(root)})
 
@@ -119,7 +122,7 @@ Next == Apply \/ Render
 Spec == Init /\ [][Next]_vars
 
 \* the reference view: the unmodified layout
-RefView == ViewOf(Decoded(RenderIt(<<>>)))
+RefView == ViewOf(Decoded(IF Base = "fragmf" THEN RenderFrag(FragMovie, "one", <<>>).file ELSE RenderIt(<<>>)))
 LayoutInvariant == out.done => out.view = RefView
 Emit == out.done => PrintT("CASE " \o ToJson([file |-> out.bytes, ops |-> ops, base |-> Base, fields |-> out.fields]))
 =============================================================================
